@@ -75,6 +75,7 @@ type Exec struct {
 	curPos    token.Pos
 	axiomsDone map[string]bool
 	Trivial    int // obligations whose goal folded to true during generation
+	ghostKeys  map[string]*ssa.Parameter // ghost variables live in State.Env under synthetic keys (merged like any value)
 	pathInline bool
 	pathSteps  int
 }
@@ -353,9 +354,8 @@ func (x *Exec) ExecFunc(fr *frame, st *State) (Value, *State) {
 	if fn.Blocks == nil {
 		panic(unsupported("no body for " + fn.String()))
 	}
-	if fn.Recover != nil {
-		panic(unsupported("function with recover block (defer/recover): " + fn.String()))
-	}
+	// fn.Recover exists for every function with a defer; only deferred calls that are known
+	// no-ops (unlock, Done) are accepted by execInstr, so no recover() can intercept a panic here.
 	fi := x.funcInfo(fn)
 	fr.fi = fi
 	// decide loop treatment
